@@ -21,6 +21,9 @@ type c10Params struct {
 	Depth    int
 	Idle     bool
 	EntryLen int // bytes one stored entry occupies (MaxInuse configs)
+	// Sealed: the initial state already holds every key, in a table that is no longer the active
+	// one (the keys were written, then neighbours rolled the partition on to another table)
+	Sealed bool
 }
 
 type c10Sys struct {
@@ -30,6 +33,7 @@ type c10Sys struct {
 	// idle part: virtual ms of the last touch per key (0 = never written / deleted)
 	Touched map[string]int64
 	Written map[string]bool
+	Fills   int
 }
 
 const c10Window = 100 * time.Millisecond
@@ -42,6 +46,12 @@ func c10New(p *c10Params) *c10Sys {
 		panic(err)
 	}
 	s.KV = kv
+	if p.Sealed {
+		for i := range p.Keys {
+			s.Apply(clustermc.Ev{K: "put", A: i})
+		}
+		s.Apply(clustermc.Ev{K: "fill"})
+	}
 	return s
 }
 
@@ -51,6 +61,8 @@ func (s *c10Sys) describe(e clustermc.Ev) string {
 		return fmt.Sprintf("Tick(%dms)", e.B)
 	case "evict":
 		return "evict"
+	case "fill":
+		return "Put(4 neighbour keys of the first key's partition)"
 	}
 	return fmt.Sprintf("%s(%s)", e.K, s.P.Keys[e.A])
 }
@@ -147,6 +159,19 @@ func (s *c10Sys) Apply(e clustermc.Ev) []clustermc.Fail {
 		}
 		s.Touched[k] = sched.PeekNS() / 1e6
 		fs = append(fs, s.bounds(s.describe(e))...)
+	case "fill":
+		// neighbours roll the partition's storage on to another table: the keys written before sit
+		// in a sealed table from now on
+		part := s.Cl.PartID("d", s.P.Keys[0])
+		n := 0
+		s.Cl.FindKey(fmt.Sprintf("fill%d-", s.Fills), func(k string) bool {
+			if s.Cl.PartID("d", k) == part {
+				s.KV.Put(k, []byte("FFFFFFFFFFFFFFFFFFFFFFFFFFFFFF"), simcluster.PutOpt{})
+				n++
+			}
+			return n >= 4
+		})
+		s.Fills++
 	case "get":
 		k := s.P.Keys[e.A]
 		g := s.KV.Get(k)
@@ -215,6 +240,9 @@ func c10Specs(tier string) []*clustermc.Spec {
 				alpha = append(alpha, clustermc.Ev{K: "get", A: i})
 			}
 			alpha = append(alpha, clustermc.Ev{K: "tick", B: 60}, clustermc.Ev{K: "tick", B: 120}, clustermc.Ev{K: "evict"})
+			if p.Opts.TableSize != 0 && p.Opts.TableSize < 1024 {
+				alpha = append(alpha, clustermc.Ev{K: "fill"})
+			}
 		} else {
 			alpha = append(alpha, clustermc.Ev{K: "get", A: 0})
 		}
@@ -286,6 +314,9 @@ func c10Specs(tier string) []*clustermc.Spec {
 		mk(&c10Params{Name: fmt.Sprintf("MaxIdleDuration=100ms P=3 N=%d", n), Keys: keys[:2], Depth: idleDepth, Idle: true,
 			Opts: simcluster.Opts{N: n, Partitions: 3, MaxIdle: c10Window}})
 	}
+	// the same with 128-byte tables and a "fill" event: keys that sit in a sealed (non-active) table
+	mk(&c10Params{Name: "MaxIdleDuration=100ms P=3 N=1 table=128 keys-in-sealed-table", Keys: keys[:2], Depth: idleDepth, Idle: true, Sealed: true,
+		Opts: simcluster.Opts{N: 1, Partitions: 3, MaxIdle: c10Window, TableSize: 128}})
 	return out
 }
 
